@@ -45,6 +45,7 @@ pub extern "C" fn verif_ffi_enter() {
             let hook = HOOK.try_with(|c| c.try_borrow().ok().and_then(|h| h.clone())).ok().flatten();
             if let Some((y, t)) = hook {
                 let _ = YIELDS.try_with(|c| c.set(c.get() + 1));
+                let _quiet = in_scheduler();
                 y.yield_now(t);
             }
         }
@@ -62,6 +63,7 @@ pub fn seam_yield() {
             let hook = HOOK.try_with(|c| c.try_borrow().ok().and_then(|h| h.clone())).ok().flatten();
             if let Some((y, t)) = hook {
                 let _ = YIELDS.try_with(|c| c.set(c.get() + 1));
+                let _quiet = in_scheduler();
                 y.yield_now(t);
             }
         }
@@ -72,4 +74,224 @@ pub fn seam_yield() {
 #[unsafe(no_mangle)]
 pub extern "C" fn verif_ffi_exit() {
     let _ = DEPTH.try_with(|c| c.set(c.get().saturating_sub(1)));
+}
+
+// ------------------------------------------------------------------------------------------
+// Scheduling points at basic-block granularity (the "bb" build, tools/bb_tier.sh): every crate is
+// compiled with LLVM's SanitizerCoverage `trace-pc-guard` pass, which calls
+// `__sanitizer_cov_trace_pc_guard` at the head of every basic block. During a bb episode the
+// *first* execution of each static block within an operation is a potential scheduling point
+// (taken with probability 1/q from a per-operation seeded stream): preemption points are spread
+// over the distinct blocks an operation runs through, not over loop iterations. Only code running
+// inside a library call (`lib_scope`) yields, never the simulator's own bookkeeping and never while
+// a wrapped C call is in progress. In the ordinary build nothing calls the callback.
+//
+// The callback itself must not call instrumented code before its re-entrancy flag is set (LLVM skips
+// functions named `__sanitizer_*`, but not their callees): its state lives in a pthread TLS slot
+// reached through libc only, and every helper is `#[inline(always)]`.
+
+use std::sync::atomic::{AtomicU32, AtomicUsize, Ordering};
+
+static NEXT_GUARD: AtomicU32 = AtomicU32::new(1);
+/// number of threads with block-level scheduling enabled: the callback does nothing at all while 0
+static BB_ACTIVE: AtomicU32 = AtomicU32::new(0);
+/// pthread key + 1 (0 = not created yet)
+static TLS_KEY: AtomicUsize = AtomicUsize::new(0);
+
+#[repr(C)]
+struct BbTls {
+    in_cb: bool,
+    /// 0 = off; otherwise a first-seen block yields with probability 1/q
+    q: u32,
+    gen_no: u32,
+    seen: *mut u32,
+    seen_len: usize,
+    rng: u64,
+    in_lib: u32,
+    yields_left: u32,
+}
+
+#[inline(always)]
+unsafe fn bb_tls(create: bool) -> *mut BbTls {
+    unsafe {
+        let mut k = TLS_KEY.load(Ordering::Acquire);
+        if k == 0 {
+            if !create {
+                return std::ptr::null_mut();
+            }
+            let mut key: libc::pthread_key_t = 0;
+            if libc::pthread_key_create(&mut key, None) != 0 {
+                return std::ptr::null_mut();
+            }
+            match TLS_KEY.compare_exchange(0, key as usize + 1, Ordering::AcqRel, Ordering::Acquire) {
+                Ok(_) => k = key as usize + 1,
+                Err(other) => {
+                    libc::pthread_key_delete(key);
+                    k = other;
+                }
+            }
+        }
+        let key = (k - 1) as libc::pthread_key_t;
+        let p = libc::pthread_getspecific(key) as *mut BbTls;
+        if !p.is_null() || !create {
+            return p;
+        }
+        let p = libc::calloc(1, std::mem::size_of::<BbTls>()) as *mut BbTls;
+        if !p.is_null() {
+            libc::pthread_setspecific(key, p as *const libc::c_void);
+        }
+        p
+    }
+}
+
+/// While the scheduler's own hand-over code runs on this thread, basic-block callbacks must not
+/// yield again (the baton's mutex is not re-entrant).
+pub struct Quiet(bool);
+pub fn in_scheduler() -> Quiet {
+    unsafe {
+        let p = bb_tls(false);
+        if p.is_null() || (*p).in_cb {
+            return Quiet(false);
+        }
+        (*p).in_cb = true;
+        Quiet(true)
+    }
+}
+impl Drop for Quiet {
+    fn drop(&mut self) {
+        if self.0 {
+            unsafe {
+                let p = bb_tls(false);
+                if !p.is_null() {
+                    (*p).in_cb = false;
+                }
+            }
+        }
+    }
+}
+
+/// number of instrumented blocks in this binary (0 in the ordinary build)
+pub fn bb_blocks() -> u32 {
+    NEXT_GUARD.load(Ordering::Relaxed) - 1
+}
+
+/// enable block-level scheduling points on the calling thread (q = 0: off)
+pub fn bb_enable(q: u32) {
+    if bb_blocks() == 0 {
+        return;
+    }
+    unsafe {
+        let p = bb_tls(true);
+        if p.is_null() {
+            return;
+        }
+        if ((*p).q == 0) != (q == 0) {
+            if q > 0 {
+                BB_ACTIVE.fetch_add(1, Ordering::SeqCst);
+            } else {
+                BB_ACTIVE.fetch_sub(1, Ordering::SeqCst);
+            }
+        }
+        let n = NEXT_GUARD.load(Ordering::Relaxed) as usize + 1;
+        if q > 0 && (*p).seen_len < n {
+            if !(*p).seen.is_null() {
+                libc::free((*p).seen as *mut libc::c_void);
+            }
+            (*p).seen = libc::calloc(n, 4) as *mut u32;
+            (*p).seen_len = if (*p).seen.is_null() { 0 } else { n };
+            (*p).gen_no = 0;
+        }
+        (*p).q = q;
+    }
+}
+
+/// a new operation begins on this thread: every block counts as unseen again
+pub fn bb_op_begin(seed: u64) {
+    unsafe {
+        let p = bb_tls(false);
+        if p.is_null() {
+            return;
+        }
+        (*p).gen_no = (*p).gen_no.wrapping_add(1);
+        if (*p).gen_no == 0 {
+            for i in 0..(*p).seen_len {
+                *(*p).seen.add(i) = 0;
+            }
+            (*p).gen_no = 1;
+        }
+        (*p).rng = seed | 1;
+        (*p).yields_left = 4000;
+    }
+}
+
+/// RAII marker: the calling thread is inside a library call
+pub struct LibScope;
+pub fn lib_scope() -> LibScope {
+    unsafe {
+        let p = bb_tls(false);
+        if !p.is_null() {
+            (*p).in_lib += 1;
+        }
+    }
+    LibScope
+}
+impl Drop for LibScope {
+    fn drop(&mut self) {
+        unsafe {
+            let p = bb_tls(false);
+            if !p.is_null() {
+                (*p).in_lib = (*p).in_lib.saturating_sub(1);
+            }
+        }
+    }
+}
+
+#[unsafe(no_mangle)]
+pub extern "C" fn __sanitizer_cov_trace_pc_guard_init(start: *mut u32, stop: *mut u32) {
+    // called once per instrumented object before main: number the guards
+    unsafe {
+        let mut p = start;
+        while p < stop {
+            if *p == 0 {
+                *p = NEXT_GUARD.fetch_add(1, Ordering::Relaxed);
+            }
+            p = p.add(1);
+        }
+    }
+}
+
+#[unsafe(no_mangle)]
+pub extern "C" fn __sanitizer_cov_trace_pc_guard(guard: *mut u32) {
+    if BB_ACTIVE.load(Ordering::Relaxed) == 0 {
+        return;
+    }
+    unsafe {
+        let id = *guard as usize;
+        let p = bb_tls(false);
+        if id == 0 || p.is_null() || (*p).in_cb {
+            return;
+        }
+        if (*p).q == 0 || (*p).in_lib == 0 || (*p).yields_left == 0 || id >= (*p).seen_len {
+            return;
+        }
+        let slot = (*p).seen.add(id);
+        if *slot == (*p).gen_no {
+            return;
+        }
+        *slot = (*p).gen_no;
+        // xorshift64*
+        let mut x = (*p).rng;
+        x ^= x >> 12;
+        x ^= x << 25;
+        x ^= x >> 27;
+        (*p).rng = x;
+        let r = x.wrapping_mul(0x2545_f491_4f6c_dd1d) >> 33;
+        if r % (*p).q as u64 != 0 {
+            return;
+        }
+        (*p).in_cb = true;
+        (*p).yields_left -= 1;
+        seam_yield();
+        (*p).in_cb = false;
+    }
 }
